@@ -87,6 +87,7 @@ RANDOM_OPERANDS = ENUM_OPERANDS + [
     ["tag", "order"], ["tag", "nota"],
     ["glob", "A.*"], ["glob", "*.x"], ["glob", "*=1"], ["glob", "k-*"], ["glob", "?-v=?"], ["glob", "*x"],
     ["glob", "[!a]b"], ["glob", "[A-B].x"], ["glob", "??"], ["glob", "*"], ["glob", "[a-c]"], ["glob", "B*"],
+    ["glob", "[ab]*"], ["glob", "*.[xX]"], ["glob", "a[.b]*"], ["glob", "*[bx]"], ["glob", "[!a]*"], ["glob", "*[-=]*"],
 ]
 ESCAPED_OPERANDS = [["tag", "a"], ["tag", "a("], ["tag", "(b)"], ["tag", "a\\b"],
                     ["glob", "a(*"], ["glob", "*)"], ["glob", "a.*"]]
@@ -255,7 +256,11 @@ def check_glob(case):
                      % (pattern, tag, got, want))
             break
     res.label("glob-edge")
-    res.nontrivial = pattern.count("*") + pattern.count("?") >= 1 and len(pattern) >= 2
+    if "[" in pattern:
+        res.label("glob-edge:character-class")
+        if "*" in pattern:
+            res.label("glob-edge:character-class-next-to-star")
+    res.nontrivial = pattern.count("*") + pattern.count("?") + pattern.count("[") >= 1 and len(pattern) >= 2
     if any(pattern.startswith(c) and pattern.endswith(c) for c in "ab.") and "*" in pattern:
         res.label("glob-edge:overlap-candidate")
     return res
@@ -268,6 +273,16 @@ def glob_cases(max_len=4):
             pat = "".join(tup)
             if "*" in pat or "?" in pat:
                 yield {"kind": "glob", "pattern": pat}
+
+
+def glob_class_cases(max_tokens=3):
+    """Patterns with a [seq] / [!seq] / [a-b] character class next to literals, * and ? (complete up to max_tokens)."""
+    import itertools
+    tokens = ["a", "b", ".", "*", "?", "[ab]", "[!a]", "[a-b]", "[.b]"]
+    for n in range(1, max_tokens + 1):
+        for tup in itertools.product(tokens, repeat=n):
+            if any(t.startswith("[") for t in tup):
+                yield {"kind": "glob", "pattern": "".join(tup)}
 
 
 def check_expr(case):
@@ -647,6 +662,7 @@ def explore(rec):
     rec.enum("operator-like-tag-names/trees<=3-nodes", kw_enum())
     rec.hyp("operator-like-tag-names/random", kw_expr_st(), 4000 if quick else 100000)
     rec.enum("wildcard-patterns<=%d x all tags<=3" % (4 if quick else 5), glob_cases(4 if quick else 5))
+    rec.enum("character-class-patterns<=%d-tokens x all tags<=3" % (3 if quick else 4), glob_class_cases(3 if quick else 4))
 
 
 def required_labels(tier):
@@ -654,7 +670,8 @@ def required_labels(tier):
             "rendering:at", "rendering:extra-parens", "rendering:extra-blanks", "operators>=2", "negation",
             "depth:3", "depth:5", "placeholder:substituted", "placeholder:no-command-line-tags",
             "escaped-wildcard", "escaped-literal", "glob-edge", "glob-edge:overlap-candidate",
-            "rendering:term-of-parenthesised-groups", "operator-like-tag-names", "command-line", "command-line:--wip", "command-line:terms=3"] + ["placeholder:" + v for v in VIAS]
+            "rendering:term-of-parenthesised-groups", "glob-edge:character-class", "glob-edge:character-class-next-to-star",
+            "operator-like-tag-names", "command-line", "command-line:--wip", "command-line:terms=3"] + ["placeholder:" + v for v in VIAS]
 
 
 KNOWN_PREDICATES = {}
